@@ -38,9 +38,19 @@ def build_harness(log):
     try:
         shutil.copyfile(os.path.join(REPO, "go.sum"), os.path.join(HARNESS, "go.sum"))
         out = os.path.join(BUILD, "vharness")
+        modflag = []
+        if os.path.realpath(REPO) != "/repo":
+            # a copy of the repository (VERIF_REPO): build against it through an alternative go.mod
+            tag = hashlib.sha1(os.path.realpath(REPO).encode()).hexdigest()[:8]
+            alt = os.path.join(BUILD, "alt-%s.mod" % tag)
+            with open(alt, "w") as f:
+                f.write(open(os.path.join(HARNESS, "go.mod")).read().replace("=> /repo", "=> " + os.path.realpath(REPO)))
+            shutil.copyfile(os.path.join(REPO, "go.sum"), alt[:-4] + ".sum")
+            modflag = ["-modfile=" + alt]
+            out = os.path.join(BUILD, "vharness-" + tag)
         tmp = out + ".%d" % os.getpid()
         t0 = time.time()
-        p = subprocess.run(["go", "build", "-tags", "verif", "-o", tmp, "./cmd/vharness"],
+        p = subprocess.run(["go", "build"] + modflag + ["-tags", "verif", "-o", tmp, "./cmd/vharness"],
                            cwd=HARNESS, env=goenv(), stdout=subprocess.PIPE, stderr=subprocess.STDOUT, text=True)
         if p.returncode != 0:
             raise Infra("harness build failed:\n" + p.stdout)
